@@ -95,6 +95,8 @@ def cases(thorough):
                + func("  call p1, g, r, a\n  mov r1, g\n  call p1, r1, r2, r\n  inline p1, g, r, r2\n  call pg2, g2, r, d1, a\n  call pgb, gb, r2, blk:24(m), rblk:40(m)\n  call p1, ext1, r1, 5\n")), run=0)
     add("insn va_*", module("vf: func i64, i64:n, ...\n  local i64:va, i64:r, i64:p2\n  alloca va, 32\n  va_start va\n  va_arg p2, va, i64:0\n  mov r, i64:(p2)\n  va_block_arg m2, va, 16, 1\n  va_end va\n  ret r\nendfunc\n".replace("m2", "p2")), run=0)
     add("api: data item of pointer type", "", run=0, api="pdata")
+    add("api: unsigned integer operands up to 2^64-1", "", run=0, api="uintop")
+    add("api: string operand without a trailing NUL", "", run=0, api="strnonul")
     add("insn jcall/jret", module("p0: proto\nj: func\n  local i64:ra\n  jret ra\nendfunc\nk: func\n  jcall p0, j\n  ret\nendfunc\n"), run=0)
     add("insn property", module(func("  prset r, 5\n  prbeq L9, r, 5\n  prbne L9, r, 3\nL9:\n  mov r, 1\n")), run=0)
     add("func globals tied to hard regs", module("f: func i64, i64:a\n  local i64:r\n  global i64:g1:rbx, d:g2:xmm12, i64:g3:r12\n  mov g1, a\n  mov r, g1\n  ret r\nendfunc\n"), run=0)
